@@ -133,6 +133,24 @@ def run(ctx):
             sol = k5_case(ctx, inst)
             if it == 0 and sol:
                 ctx.rep.sample({"instance": inst, "solution": {k: sol[k] for k in sol if not k.startswith("_")}})
+    # zero-flow edges together with ignored edges (MILP route): nothing may be routed with positive weight over a
+    # non-ignored edge of flow 0
+    for it in range(ctx.n(40, 400)):
+        cls = rng.choice(["kFlowDecomp", "MinFlowDecomp"])
+        nodes, edges = gen.dag(rng, n=rng.randint(3, 6), min_edges=4)
+        touched = {x for e in edges for x in e}
+        nodes = [v for v in nodes if v in touched]
+        f, paths, ws = gen.flow_from_paths(rng, nodes, edges, wtype=int, cover=False, npaths=rng.randint(1, 2))
+        zero = [e for e in edges if f[e] == 0]
+        pos = [e for e in edges if f[e] > 0]
+        if not zero or not pos:
+            continue
+        inst = {"cls": cls, "nodes": nodes, "edges": [list(e) for e in edges], "origin": "edge", "weight_type": "int",
+                "constraints": [], "coverage": "1", "starts": [], "ends": [],
+                "ignore": [list(e) for e in rng.sample(pos, rng.randint(1, min(2, len(pos))))],
+                "flow": [[u, v, qstr(f[(u, v)])] for (u, v) in edges], "k": rng.randint(1, 3),
+                "options": {"optimize_with_greedy": False}}
+        k5_case(ctx, inst, suite="K5.zero_flow_and_ignored")
     # ignored edges with arbitrary values on the ignored edges (their flow must not matter)
     for it in range(ctx.n(20, 200)):
         cls = rng.choice(["kFlowDecomp", "kFlowDecompCycles"])
